@@ -8,6 +8,7 @@ A property module provides:
 Exit codes: 0 held, 1 violation (VIOLATION line printed), 2 harness error.
 """
 import argparse
+import re
 import importlib
 import json
 import os
@@ -310,7 +311,7 @@ def report_violations(prop_id, mod, seed, args, viols, t0, agg, pre, st=None):
     # group by rule; minimise one representative per rule (at most 3 rules)
     by_rule = {}
     for v in viols:
-        gk = v["rule"] + ("|" + str(v.get("msg"))[:70] if v["rule"] == "world_unbuildable" else "")
+        gk = v["rule"] + ("|" + re.sub(r"\d+", "N", str(v.get("msg")))[:70] if v["rule"] == "world_unbuildable" else "")
         by_rule.setdefault(gk, []).append(v)
     for gk, vs in list(by_rule.items())[:4]:
         v = vs[0]
